@@ -266,6 +266,9 @@ FAMILIES["arrmeth"] = {
             {"kind": "fn", "name": "Array::validate", "file": "src/array.rs", "impl": r"^impl<T: ArrayValue> Array<T> \{", "fn": "validate"},
             {"kind": "fn", "name": "Array::reverse_depth", "file": "src/algorithm/monadic/mod.rs", "impl": r"^impl<T: ArrayValue> Array<T> \{", "fn": "reverse_depth"},
             {"kind": "fn", "name": "Array::transpose_depth", "file": "src/algorithm/monadic/mod.rs", "impl": r"^impl<T: ArrayValue> Array<T> \{", "fn": "transpose_depth"},
+        ] + [
+            {"kind": "fn", "name": "Array::" + f, "file": "src/algorithm/monadic/mod.rs", "impl": r"^impl<T: ArrayValue> Array<T> \{", "fn": f}
+            for f in ["first_min_index", "first_max_index", "last_min_index", "last_max_index"]
         ]},
     ],
 }
